@@ -301,3 +301,72 @@ def field_type(prog, adt, field):
 
 def method_name(site):
     return norm_path(site.term.callee_path()).split("::")[-1]
+
+
+def fallback_chain(rule, prog, fpath, levels, keyprefix):
+    """`levels` = [(name, value_regex, source_regex)] in priority order.  Every return of `fpath` is classified by the first
+    level whose value_regex matches its (expanded) text; a return of level i must lie under facts saying that every
+    level j < i is absent (its source `is None` / `is_some` false).  Recognised idioms: if/early-return chains, `match`,
+    and `Option::or / or_else / unwrap_or / unwrap_or_else(level_i, level_i+1)`.  Each level needs at least one return."""
+    from .cfg import Flow, Slicer, show_fact
+    from .model import show, loc
+    f = prog.fn(fpath)
+    fl = Flow(f.body)
+    sl = Slicer(f.body)
+    seen = set()
+    rets = ret_assign_blocks(f.body, lambda e: True)
+    if not rets:
+        from .model import AnchorMissing
+        raise AnchorMissing("%s has no return value assignment" % fpath)
+
+    def absent(j, bb):
+        for (a, t) in fl.facts_at(bb):
+            if a[0] == "variant":
+                txt = show(sl.expand(a[1]), 300)
+                if re.search(levels[j][2], txt) and ((a[2] == "None" and t) or (a[2] == "Some" and not t)):
+                    return True
+        return False
+
+    def level_of(txt):
+        for i, (_, vr, _) in enumerate(levels):
+            if re.search(vr, txt):
+                return i
+        return None
+
+    for bb, e in rets:
+        ex = sl.expand(e)
+        txt = show(ex, 400)
+        m = ex[0] == "call" and re.search(r"Option(<.*>)?::(or|or_else|unwrap_or|unwrap_or_else)$", ex[1])
+        if m and len(ex[2]) == 2:
+            a0 = show(ex[2][0], 300)
+            a1 = ex[2][1]
+            if a1[0] == "closure":
+                cf = prog.funcs.get(a1[1])
+                a1txt = " | ".join(show(Slicer(cf.body).expand(v), 300) for _, v in ret_assign_blocks(cf.body, lambda e: True)) if cf else "?"
+            else:
+                a1txt = show(a1, 300)
+            i0, i1 = level_of(a0), level_of(a1txt)
+            key = "%s %s" % (keyprefix, "or-chain")
+            if i0 is not None and i1 is not None and i0 < i1 and all(absent(j, bb) for j in range(i0)):
+                rule.ok(key, "%s, then %s" % (levels[i0][0], levels[i1][0]), loc(f.sp))
+                seen |= {i0, i1}
+            else:
+                rule.violation(key, "%s returns %s: the fallback order must be %s" % (
+                    fpath.split("::")[-1], txt[:160], " > ".join(l[0] for l in levels)), loc(f.sp))
+                seen |= {x for x in (i0, i1) if x is not None}
+            continue
+        i = level_of(txt)
+        if i is None:
+            rule.violation("%s returns %s" % (keyprefix, txt[:60]), "return value is none of %s" % [l[0] for l in levels], loc(f.sp))
+            continue
+        seen.add(i)
+        key = "%s returns %s" % (keyprefix, levels[i][0])
+        missing = [levels[j][0] for j in range(i) if not absent(j, bb)]
+        if missing:
+            rule.violation(key, "%s is returned although %s may be present (facts here: %s): the precedence %s is not respected" % (
+                levels[i][0], missing, "; ".join(show_fact(x) for x in fl.facts_at(bb))[:200], " > ".join(l[0] for l in levels)), loc(f.sp))
+        else:
+            rule.ok(key, "under absence of %s" % [levels[j][0] for j in range(i)] if i else "first choice", loc(f.sp))
+    for i, l in enumerate(levels):
+        if i not in seen:
+            rule.violation("%s returns %s" % (keyprefix, l[0]), "%s never returns %s" % (fpath.split("::")[-1], l[0]), loc(f.sp))
